@@ -93,10 +93,12 @@ impl ReturnType for UnaryOperation {
     fn return_type(&self) -> Type {
         let return_type = self.instruction.return_type();
         match self.op {
-            UnaryOperator::Sum | UnaryOperator::Product => return_type.iter_element().unwrap(),
+            UnaryOperator::Sum | UnaryOperator::Product => {
+                return_type.iter_element().unwrap_or(Type::Never)
+            }
             UnaryOperator::Not | UnaryOperator::UnaryMinus => return_type,
             UnaryOperator::Indirection => indirection::return_type(return_type),
-            UnaryOperator::FunctionCall => return_type.return_type().unwrap(),
+            UnaryOperator::FunctionCall => return_type.return_type().unwrap_or(Type::Never),
             UnaryOperator::Collect => collect::return_type(return_type),
             UnaryOperator::Iter => iter::return_type(return_type),
             UnaryOperator::All
